@@ -38,6 +38,9 @@ def exec_ojn(scn):
     r = rng("c07-" + scn["id"])
     lvl = scn["lvl"]
     # packages in measure order, as the files have them
+    if scn.get("ext"):
+        # EXTENSION: one measure-fraction package (channel 0)
+        lvl = list(lvl) + [{"m": scn["sig"]["m"], "ch": 0, "n": 1, "evs": [{"i": 0, "kind": 0, "vol": 0, "pan": 0, "bl": 0, "f1000": scn["sig"]["f1000"]}]}]
     lvl = sorted(lvl, key=lambda p: (p["m"], p["ch"]))
     other = [{"m": 0, "ch": 2, "n": 1, "evs": [{"i": 0, "kind": 0, "vol": 1, "pan": 8, "bl": 0}]},
              {"m": 0, "ch": 1, "n": 1, "evs": [{"i": 0, "kind": 0, "vol": 0, "pan": 0, "bl": scn["bl0"]}]}]
@@ -51,6 +54,8 @@ def exec_ojn(scn):
     data = encode(lvls, scn["bl0"], meta)
     ftok = decode(data)
     rec = {"id": scn["id"] + "/read", "op": "read", "cls": "ojn.read", "exc": "", "file": ftok, "charts": [], "meta": {}, "slack": 0}
+    if scn.get("ext"):
+        rec["ext"], rec["cls"], rec["slack"] = True, "ext.ojn.read.measure_fraction", 12
     try:
         if v % 4 == 1:
             fd, path = tempfile.mkstemp(suffix=".ojn")
